@@ -39,13 +39,14 @@ VARIABLES sc,        \* the scenario of this behaviour (a record, see vt/drive/u
           instr, held, store,
           inited, alloc, done, resolved, att, innerRun, procd, linked,
           repo, retained, outcome,
+          snap,      \* what was observable when round 1 ended (history, for the summary)
           ev         \* the observable event of the last step (NoEv for silent steps)
 
 cvars == <<instr, held, store>>
 ovars == <<inited, alloc, done, resolved, att, innerRun, procd, linked>>
-rvars == <<repo, retained, outcome>>
+rvars == <<repo, retained, outcome, snap>>
 vars  == <<sc, round, phase, stack, exc, instr, held, store, inited, alloc, done, resolved,
-           att, innerRun, procd, linked, repo, retained, outcome, ev>>
+           att, innerRun, procd, linked, repo, retained, outcome, snap, ev>>
 
 ----------------------------------------------------------------------------
 \* the scenario
@@ -130,6 +131,7 @@ InitWith(scenarios) ==
   /\ inited = [o \in AllObjs |-> 0] /\ alloc = {} /\ done = {} /\ resolved = {}
   /\ att = [r \in AllRefs |-> 0] /\ innerRun = {} /\ procd = {} /\ linked = {}
   /\ repo = {} /\ retained = {} /\ outcome = <<"", "">>
+  /\ snap = [instr |-> <<>>, store |-> <<>>, retained |-> <<>>, inits |-> <<>>]
   /\ ev = NoEv
 
 \* parse: a syntax error is raised before this parser touched the user classes
@@ -180,7 +182,7 @@ Register ==
   /\ stack' = [stack EXCEPT ![TopIdx].grp = Append(@, Top.f),
                             ![Len(stack)].pc = "imports", ![Len(stack)].i = 1]
   /\ repo' = IF S.grepo /\ File(Top.f).kind # "inner" THEN repo \cup {Top.f} ELSE repo
-  /\ Tau /\ UNCHANGED <<sc, round, phase, exc, cvars, ovars, retained, outcome>>
+  /\ Tau /\ UNCHANGED <<sc, round, phase, exc, cvars, ovars, retained, outcome, snap>>
 
 \* import statements in order: already loaded in this load -> shared, else nested load
 Import ==
@@ -330,7 +332,7 @@ Return ==
   /\ IF Len(stack) = 1
      THEN phase' = "post" /\ outcome' = [outcome EXCEPT ![round] = "ok"]
      ELSE UNCHANGED <<phase, outcome>>
-  /\ UNCHANGED <<sc, round, exc, cvars, ovars, repo, retained>>
+  /\ UNCHANGED <<sc, round, exc, cvars, ovars, repo, retained, snap>>
 
 ----------------------------------------------------------------------------
 \* failure: the exception unwinds frame by frame
@@ -368,7 +370,7 @@ Unwind ==
              THEN phase' = "post" /\ outcome' = [outcome EXCEPT ![round] = exc] /\ exc' = ""
              ELSE /\ UNCHANGED <<phase, outcome>>
                   /\ exc' = IF swallow THEN "" ELSE exc
-  /\ UNCHANGED <<sc, round, ovars, retained>>
+  /\ UNCHANGED <<sc, round, ovars, retained, snap>>
 
 ----------------------------------------------------------------------------
 \* what stays reachable from state that outlives the call
@@ -381,11 +383,15 @@ Reach(T) == LET N == T \cup UNION {Out(x) : x \in T} IN IF N = T THEN T ELSE Rea
 Reachable == Reach(UNION {Out(u) : u \in UNION {store[c] : c \in User}} \cup {Root(f) : f \in repo})
 
 StSeq == [i \in 1..Len(S.user) |-> instr[S.user[i]]]
+StoreSeq == [i \in 1..Len(S.user) |-> SeqOfSet(store[S.user[i]])]
+InitList == SeqOfSet({o \in AllObjs : inited[o] > 0})
 
 Post ==
   /\ phase = "post"
   /\ LET rt == IF outcome[round] # "ok" THEN Reachable ELSE {} IN
      /\ retained' = rt
+     /\ snap' = IF round = 1 THEN [instr |-> StSeq, store |-> StoreSeq, retained |-> SeqOfSet(rt), inits |-> InitList]
+                ELSE snap
      /\ Emit([Ev("Post", 0, 0, "") EXCEPT !.b = outcome[round] = "ok", !.refs = rt])
   /\ phase' = IF round = 1 /\ S.follow # 0 THEN "between" ELSE IF round = 2 THEN "cmp" ELSE "end"
   /\ UNCHANGED <<sc, round, stack, exc, cvars, ovars, repo, outcome>>
@@ -451,12 +457,9 @@ C15_FollowFresh == phase = "end" /\ round = 2 =>
                      /\ ev.b /\ outcome[2] = "ok"
                      /\ \A o \in UserObjs(S.follow) : inited[o] = 1
 
-\* summary printed for the S->I comparison (order-insensitive, so unique per scenario)
-InitList == SeqOfSet({o \in AllObjs : inited[o] > 0})
-Summary == [id |-> S.id, round |-> round, res1 |-> outcome[1], res2 |-> outcome[2],
-            instr |-> StSeq,
-            store |-> [i \in 1..Len(S.user) |-> SeqOfSet(store[S.user[i]])],
-            retained |-> SeqOfSet(retained),
-            inits |-> InitList, same |-> FollowSame]
-EmitSummary == phase \in {"between", "end"} => PrintT("RESULT|" \o ToJson(Summary))
+\* summary printed at the end of a behaviour for the S->I comparison (a scenario may have several:
+\* the order in which the user objects of a model are initialised is not prescribed)
+Summary == [id |-> S.id, res1 |-> outcome[1], res2 |-> outcome[2], post1 |-> snap,
+            instr |-> StSeq, store |-> StoreSeq, inits |-> InitList, same |-> FollowSame]
+EmitSummary == phase = "end" => PrintT("RESULT|" \o ToJson(Summary))
 =============================================================================
